@@ -12,8 +12,7 @@ Mechanisms under contract (DESIGN section 5, C03):
                                  INV3  level == parent.level + 1 unless given (Symbols.__init__)
                                  INV4  n in stores               =>  refs[n] defined here
   C03.symbols.no_alias.*       string lemma on the identifier built by the real _define_ref: (level, name) -> ident is injective
-                               and never a compiler-internal name; every literal identifier in every emission schema is not of
-                               the form l_<digit>...
+                               and never a compiler-internal name; no string constant of compiler.py is of the form l_<digit>...
   C03.symbols.store_local.*    store(n) in a child table defines l_<child level>_<n>, different from every ancestor ref, and its
                                load is alias(<ancestor ref>) when an ancestor knows n
   C03.symbols.branch_update.*  loop-body commutation (result independent of set iteration order) + bounded exhaustive
@@ -2212,6 +2211,43 @@ def namespace_tasks():
                      replay_fn=replay_namespace, min_paths=1)]
 
 
+# ------------------------------------------------------------------ C03.symbols.no_alias.literals (table)
+
+def literal_identifiers(task, tier, seed):
+    """No text the code generator writes by itself can be (or start) an identifier of the template-variable scheme l_<level>_<name>:
+    every string constant / f-string skeleton of jinja2/compiler.py is scanned for `l_` followed by a digit or by a formatted value;
+    the names exported to generated modules (runtime.exported / async_exported) are checked against the same pattern."""
+    import inspect
+    import jinja2.runtime as R
+    rs = []
+    src = inspect.getsource(C)
+    tree = ast.parse(src)
+    bad = []
+    n = 0
+    for node in ast.walk(tree):
+        text = None
+        if isinstance(node, ast.JoinedStr):
+            text = "".join(v.value if isinstance(v, ast.Constant) and isinstance(v.value, str) else "\x00" for v in node.values)
+        elif isinstance(node, ast.Constant) and isinstance(node.value, str):
+            text = node.value
+        if text is None:
+            continue
+        n += 1
+        if re.search(r"(?<![A-Za-z0-9_])l_[0-9\x00]", text):
+            bad.append((node.lineno, text[:60]))
+    rs.append(Res("C03.symbols.no_alias.literals.compiler", "refuted" if bad else "discharged", "table", 0,
+                  f"compiler.py writes text of the l_<level>_ scheme itself: {bad[:3]}" if bad else f"{n} string constants scanned", "table",
+                  {"level1": 0, "name1": "a", "level2": 1, "name2": "a"} if bad else None))
+    clash = [x for x in list(R.exported) + list(R.async_exported) if re.match(r"l_[0-9]", x)]
+    rs.append(Res("C03.symbols.no_alias.literals.runtime_exports", "refuted" if clash else "discharged", "table", 0, f"runtime exports {clash}" if clash else "", "table",
+                  {"level1": 0, "name1": "a", "level2": 1, "name2": "a"} if clash else None))
+    listed = set(internal_names())
+    missing = [x for x in list(R.exported) + list(R.async_exported) if x not in listed]
+    rs.append(Res("C03.symbols.no_alias.literals.internal_list_complete", "refuted" if missing else "discharged", "table", 0, f"not in the internal-name list: {missing}", "table",
+                  {"level1": 0, "name1": "a", "level2": 1, "name2": "a"} if missing else None))
+    return rs
+
+
 # ------------------------------------------------------------------ bounded differential stand-in (end to end)
 
 KNOWN_CLASSES = ("dead-read-changes-output", "for-else-loopcontrol")
@@ -2535,11 +2571,11 @@ SYMBOL_TASKS = (
     [cls(wp) for cls in (Store, FindRef, Ref_, FindLoad, DeclareParameter, Load, Copy) for wp in (True, False)]
     + [DefineRef(wp, shape) for wp in (True, False) for shape in ("pair", "nopar", "none")]
     + [Init(wp, g) for wp in (True, False) for g in (True, False)]
-    + [NoAlias()]
+    + [NoAlias(), FnTask("C03", "C03.symbols.no_alias.literals", literal_identifiers, "table", lambda w: replay_no_alias(w))]
 )
 FRAME_TASKS = [FrameInit(True), FrameInit(False), FrameInner(False), FrameInner(True), FrameCopy("copy"), FrameCopy("soft")]
 TABLE_TASKS = [BranchUpdateCommutes(True), BranchUpdateCommutes(False), Bounded("C03", "C03.symbols.tables.bounded", bounded_tables, "bounded", replay_tables)]
-TASKS = SYMBOL_TASKS + TABLE_TASKS + FRAME_TASKS + SCOPE_TASKS + tracking_tasks() + [FnTask("C03", "C03.enter_leave_frame", enter_leave_frame, "emission", replay_enter_leave)] + namespace_tasks() + BOUNDED_TASKS
+TASKS = SCOPE_TASKS + SYMBOL_TASKS + TABLE_TASKS + FRAME_TASKS + tracking_tasks() + [FnTask("C03", "C03.enter_leave_frame", enter_leave_frame, "emission", replay_enter_leave)] + namespace_tasks() + BOUNDED_TASKS
 META = {
     "level": "other",
     "explanation": (
